@@ -136,9 +136,38 @@ fn errcode(e: &Error) -> i64 {
 }
 
 pub fn run_history(tr: &mut Trace, c: &Conc, f: &TestFile, with_idx: bool, complete: bool, equal: bool, calls: &[Call], hist: &str, prop: &str) {
+    run_history_at(tr, c, f, with_idx, complete, equal, calls, hist, prop, None)
+}
+
+/// `by_path`: the files are written to that directory and opened with the path constructors
+/// (BufReader<File> sources; the .shx is simply absent when `with_idx` is false)
+#[allow(clippy::too_many_arguments)]
+pub fn run_history_at(tr: &mut Trace, c: &Conc, f: &TestFile, with_idx: bool, complete: bool, equal: bool, calls: &[Call], hist: &str, prop: &str, by_path: Option<&std::path::Path>) {
     let n = f.shapes.len();
     tr.run(json!({"ev": "reset", "kind": "reader", "n": n, "withIdx": with_idx, "complete": complete,
-                  "equalSizes": equal, "t": f.t, "hist": hist, "prop": prop}));
+                  "equalSizes": equal, "t": f.t, "hist": hist, "prop": prop, "byPath": by_path.is_some()}));
+    if let Some(dir) = by_path {
+        let p = dir.join("r.shp");
+        std::fs::write(&p, &f.shp).unwrap();
+        std::fs::write(p.with_extension("dbf"), &f.dbf).unwrap();
+        if with_idx {
+            std::fs::write(p.with_extension("shx"), &f.shx).unwrap();
+        } else {
+            let _ = std::fs::remove_file(p.with_extension("shx"));
+        }
+        if complete {
+            match Reader::from_path(&p) {
+                Ok(r) => drive_complete(tr, c, f, r, calls),
+                Err(e) => tr.emit(json!({"ev": "openfail", "err": err_json(&e)})),
+            }
+        } else {
+            match ShapeReader::from_path(&p) {
+                Ok(r) => drive_shapes(tr, c, f, r, calls),
+                Err(e) => tr.emit(json!({"ev": "openfail", "err": err_json(&e)})),
+            }
+        }
+        return;
+    }
     let sr = if with_idx {
         ShapeReader::with_shx(Cursor::new(f.shp.clone()), Cursor::new(f.shx.clone()))
     } else {
@@ -152,63 +181,7 @@ pub fn run_history(tr: &mut Trace, c: &Conc, f: &TestFile, with_idx: bool, compl
         }
     };
     if !complete {
-        let mut rdr = sr;
-        for call in calls {
-            let ev = guarded(|| match call {
-                Call::Iter(lim) => {
-                    let mut items = vec![];
-                    let mut hints = vec![];
-                    let mut ended = false;
-                    let mut err = String::new();
-                    let mut it = rdr.iter_shapes();
-                    for _ in 0..*lim {
-                        let (lo, hi) = it.size_hint();
-                        hints.push(json!([lo, hi.map(|x| x as i64).unwrap_or(-1)]));
-                        match it.next() {
-                            Some(Ok(s)) => items.push(shape_index(c, f, &s)),
-                            Some(Err(e)) => {
-                                err = err_json(&e)["err"].as_str().unwrap().to_string();
-                                break;
-                            }
-                            None => {
-                                ended = true;
-                                break;
-                            }
-                        }
-                    }
-                    json!({"ev": "iter", "lim": lim, "items": items, "rows": items, "ended": ended, "err": err, "hints": hints})
-                }
-                Call::Nth(i) => {
-                    let res = match rdr.read_nth_shape(*i) {
-                        None => -1,
-                        Some(Ok(s)) => shape_index(c, f, &s),
-                        Some(Err(e)) => errcode(&e),
-                    };
-                    json!({"ev": "nth", "i": i, "res": res})
-                }
-                Call::Seek(k) => {
-                    let res = match rdr.seek(*k) {
-                        Ok(()) => 0,
-                        Err(e) => errcode(&e),
-                    };
-                    json!({"ev": "seek", "k": k, "res": res})
-                }
-                Call::Count => {
-                    let res = match rdr.shape_count() {
-                        Ok(n) => n as i64,
-                        Err(e) => errcode(&e),
-                    };
-                    json!({"ev": "count", "res": res})
-                }
-            });
-            match ev {
-                Ok(e) => tr.emit(e),
-                Err(p) => {
-                    tr.emit(json!({"ev": "panic", "msg": p}));
-                    return;
-                }
-            }
-        }
+        drive_shapes(tr, c, f, sr, calls);
     } else {
         let dr = match dbase::Reader::new(Cursor::new(f.dbf.clone())) {
             Ok(d) => d,
@@ -217,66 +190,129 @@ pub fn run_history(tr: &mut Trace, c: &Conc, f: &TestFile, with_idx: bool, compl
                 return;
             }
         };
-        let mut rdr = Reader::new(sr, dr);
-        for call in calls {
-            let ev = guarded(|| match call {
-                Call::Iter(lim) => {
-                    let mut items = vec![];
-                    let mut rows = vec![];
-                    let mut ended = false;
-                    let mut err = String::new();
-                    let mut it = rdr.iter_shapes_and_records();
-                    for _ in 0..*lim {
-                        match it.next() {
-                            Some(Ok((s, r))) => {
-                                items.push(shape_index(c, f, &s));
-                                rows.push(row_index(&r));
-                            }
-                            Some(Err(e)) => {
-                                err = err_json(&e)["err"].as_str().unwrap().to_string();
-                                break;
-                            }
-                            None => {
-                                ended = true;
-                                break;
-                            }
+        drive_complete(tr, c, f, Reader::new(sr, dr), calls);
+    }
+}
+
+fn drive_shapes<T: std::io::Read + std::io::Seek>(tr: &mut Trace, c: &Conc, f: &TestFile, mut rdr: ShapeReader<T>, calls: &[Call]) {
+    for call in calls {
+        let ev = guarded(|| match call {
+            Call::Iter(lim) => {
+                let mut items = vec![];
+                let mut hints = vec![];
+                let mut ended = false;
+                let mut err = String::new();
+                let mut it = rdr.iter_shapes();
+                for _ in 0..*lim {
+                    let (lo, hi) = it.size_hint();
+                    hints.push(json!([lo, hi.map(|x| x as i64).unwrap_or(-1)]));
+                    match it.next() {
+                        Some(Ok(s)) => items.push(shape_index(c, f, &s)),
+                        Some(Err(e)) => {
+                            err = err_json(&e)["err"].as_str().unwrap().to_string();
+                            break;
+                        }
+                        None => {
+                            ended = true;
+                            break;
                         }
                     }
-                    json!({"ev": "iter", "lim": lim, "items": items, "rows": rows, "ended": ended, "err": err, "hints": []})
                 }
-                // the complete Reader has no random access: a full read() stands in for it
-                Call::Nth(_) => {
-                    let (items, rows, err) = match rdr.read() {
-                        Ok(v) => (
-                            v.iter().map(|(s, _)| shape_index(c, f, s)).collect::<Vec<_>>(),
-                            v.iter().map(|(_, r)| row_index(r)).collect::<Vec<_>>(),
-                            String::new(),
-                        ),
-                        Err(e) => (vec![], vec![], err_json(&e)["err"].as_str().unwrap().to_string()),
-                    };
-                    json!({"ev": "iter", "lim": n + 1, "items": items, "rows": rows, "ended": err.is_empty(), "err": err, "hints": []})
+                json!({"ev": "iter", "lim": lim, "items": items, "rows": items, "ended": ended, "err": err, "hints": hints})
+            }
+            Call::Nth(i) => {
+                let res = match rdr.read_nth_shape(*i) {
+                    None => -1,
+                    Some(Ok(s)) => shape_index(c, f, &s),
+                    Some(Err(e)) => errcode(&e),
+                };
+                json!({"ev": "nth", "i": i, "res": res})
+            }
+            Call::Seek(k) => {
+                let res = match rdr.seek(*k) {
+                    Ok(()) => 0,
+                    Err(e) => errcode(&e),
+                };
+                json!({"ev": "seek", "k": k, "res": res})
+            }
+            Call::Count => {
+                let res = match rdr.shape_count() {
+                    Ok(n) => n as i64,
+                    Err(e) => errcode(&e),
+                };
+                json!({"ev": "count", "res": res})
+            }
+        });
+        match ev {
+            Ok(e) => tr.emit(e),
+            Err(p) => {
+                tr.emit(json!({"ev": "panic", "msg": p}));
+                return;
+            }
+        }
+    }
+}
+
+fn drive_complete<T: std::io::Read + std::io::Seek, D: std::io::Read + std::io::Seek>(tr: &mut Trace, c: &Conc, f: &TestFile, mut rdr: Reader<T, D>, calls: &[Call]) {
+    let n = f.shapes.len();
+    for call in calls {
+        let ev = guarded(|| match call {
+            Call::Iter(lim) => {
+                let mut items = vec![];
+                let mut rows = vec![];
+                let mut ended = false;
+                let mut err = String::new();
+                let mut it = rdr.iter_shapes_and_records();
+                for _ in 0..*lim {
+                    match it.next() {
+                        Some(Ok((s, r))) => {
+                            items.push(shape_index(c, f, &s));
+                            rows.push(row_index(&r));
+                        }
+                        Some(Err(e)) => {
+                            err = err_json(&e)["err"].as_str().unwrap().to_string();
+                            break;
+                        }
+                        None => {
+                            ended = true;
+                            break;
+                        }
+                    }
                 }
-                Call::Seek(k) => {
-                    let res = match rdr.seek(*k) {
-                        Ok(()) => 0,
-                        Err(e) => errcode(&e),
-                    };
-                    json!({"ev": "seek", "k": k, "res": res})
-                }
-                Call::Count => {
-                    let res = match rdr.shape_count() {
-                        Ok(n) => n as i64,
-                        Err(e) => errcode(&e),
-                    };
-                    json!({"ev": "count", "res": res})
-                }
-            });
-            match ev {
-                Ok(e) => tr.emit(e),
-                Err(p) => {
-                    tr.emit(json!({"ev": "panic", "msg": p}));
-                    return;
-                }
+                json!({"ev": "iter", "lim": lim, "items": items, "rows": rows, "ended": ended, "err": err, "hints": []})
+            }
+            // the complete Reader has no random access: a full read() stands in for it
+            Call::Nth(_) => {
+                let (items, rows, err) = match rdr.read() {
+                    Ok(v) => (
+                        v.iter().map(|(s, _)| shape_index(c, f, s)).collect::<Vec<_>>(),
+                        v.iter().map(|(_, r)| row_index(r)).collect::<Vec<_>>(),
+                        String::new(),
+                    ),
+                    Err(e) => (vec![], vec![], err_json(&e)["err"].as_str().unwrap().to_string()),
+                };
+                json!({"ev": "iter", "lim": n + 1, "items": items, "rows": rows, "ended": err.is_empty(), "err": err, "hints": []})
+            }
+            Call::Seek(k) => {
+                let res = match rdr.seek(*k) {
+                    Ok(()) => 0,
+                    Err(e) => errcode(&e),
+                };
+                json!({"ev": "seek", "k": k, "res": res})
+            }
+            Call::Count => {
+                let res = match rdr.shape_count() {
+                    Ok(n) => n as i64,
+                    Err(e) => errcode(&e),
+                };
+                json!({"ev": "count", "res": res})
+            }
+        });
+        match ev {
+            Ok(e) => tr.emit(e),
+            Err(p) => {
+                tr.emit(json!({"ev": "panic", "msg": p}));
+                return;
             }
         }
     }
@@ -321,6 +357,7 @@ pub fn run(a: &Args) {
             }
         }
     }
+    let tmp = crate::cmd_codec::TmpDir::new(&out, "reader");
     let mut r = Rng::new(seed.wrapping_mul(31337));
     let mut traces: Vec<Trace> = vec![];
     let mut concs: Vec<Conc> = vec![];
@@ -388,6 +425,11 @@ pub fn run(a: &Args) {
                         k += 1;
                         distinct.insert((t, nrec, equal, with_idx, complete, h.clone()));
                         run_history(&mut traces[i], &concs[i], &files[i], with_idx, complete, equal, &calls, h, &prop);
+                        if calls.len() <= 1 || k % 17 == 0 {
+                            k += 1;
+                            distinct.insert((t, nrec, equal, with_idx, complete, format!("path:{}", h)));
+                            run_history_at(&mut traces[i], &concs[i], &files[i], with_idx, complete, equal, &calls, h, &prop, Some(&tmp.0));
+                        }
                     }
                 }
             }
